@@ -1075,6 +1075,10 @@ class slice(Stream):
         self._check_end()
 
     def update(self, x, who=None, metadata=None):
+        if self.end is not None and self.state >= self.end:
+            # finished and detached, but an emission of the upstream that was
+            # already under way still reaches us
+            return []
         emit = self.state >= self.star and (self.state - self.star) % self.step == 0
         # count the element before passing it on: a downstream that feeds back
         # into this node (or fails) must find it counted already
